@@ -9,7 +9,108 @@ def harness_modules():
     return [dict(crate="mech-core", file="src/value.rs", mod="verif_c14", gen="C14/kani_hash.rs")]
 
 
+SETOPS = [("union", "union"), ("intersection", "intersect"), ("difference", "difference"), ("symmetric_difference", "symdiff")]
+
+SET_PRELUDE = """
+// ---- assumed specification of indexmap::IndexSet<Value> (the dependency's contract): a finite set of
+// element identities; equal elements have equal identities (that is the Hash/Eq law obligations' job)
+pub uninterp spec fn kind_of(id: int) -> int;
+#[derive(PartialEq, Eq)]
+pub enum ValueKind { Empty, K(int) }
+pub struct Value { pub id: int }
+impl Value {
+  #[verifier::external_body]
+  pub fn kind(&self) -> (r: ValueKind) ensures r == ValueKind::K(kind_of(self.id)) { unimplemented!() }
+}
+pub struct IndexSet { pub elems: Ghost<Set<int>> }
+pub struct SetIter { pub elems: Ghost<Set<int>> }
+pub struct It { pub elems: Ghost<Set<int>> }
+pub open spec fn symdiff(a: Set<int>, b: Set<int>) -> Set<int> { a.difference(b).union(b.difference(a)) }
+impl IndexSet {
+  pub open spec fn view(&self) -> Set<int> { self.elems@ }
+  #[verifier::external_body] pub fn clear(&mut self) ensures final(self).view() == Set::<int>::empty() { unimplemented!() }
+  #[verifier::external_body] pub fn union(&self, o: &IndexSet) -> (r: SetIter) ensures r.elems@ == self.view().union(o.view()) { unimplemented!() }
+  #[verifier::external_body] pub fn intersection(&self, o: &IndexSet) -> (r: SetIter) ensures r.elems@ == self.view().intersect(o.view()) { unimplemented!() }
+  #[verifier::external_body] pub fn difference(&self, o: &IndexSet) -> (r: SetIter) ensures r.elems@ == self.view().difference(o.view()) { unimplemented!() }
+  #[verifier::external_body] pub fn symmetric_difference(&self, o: &IndexSet) -> (r: SetIter) ensures r.elems@ == symdiff(self.view(), o.view()) { unimplemented!() }
+  #[verifier::external_body] pub fn len(&self) -> (r: usize) ensures self.view().finite(), r == self.view().len() { unimplemented!() }
+  #[verifier::external_body] pub fn is_empty(&self) -> (r: bool) ensures self.view().finite(), r == (self.view().len() == 0) { unimplemented!() }
+  #[verifier::external_body] pub fn iter(&self) -> (r: It) ensures r.elems@ == self.view() { unimplemented!() }
+  #[verifier::external_body] pub fn first(&self) -> (r: Option<&Value>)
+    ensures self.view().finite(), self.view().len() == 0 ==> r.is_none(), self.view().len() > 0 ==> (r matches Some(v) && self.view().contains(v.id)) { unimplemented!() }
+}
+impl SetIter {
+  #[verifier::external_body] pub fn cloned(self) -> (r: SetIter) ensures r.elems@ == self.elems@ { unimplemented!() }
+  #[verifier::external_body] pub fn collect(self) -> (r: IndexSet) ensures r.view() == self.elems@ { unimplemented!() }
+}
+impl It {
+  #[verifier::external_body] pub fn next(&mut self) -> (r: Option<&Value>)
+    ensures old(self).elems@.finite(), old(self).elems@.len() == 0 ==> r.is_none(), old(self).elems@.len() > 0 ==> (r matches Some(v) && old(self).elems@.contains(v.id)) { unimplemented!() }
+}
+pub struct MechSet { pub kind: ValueKind, pub num_elements: usize, pub set: IndexSet }
+impl MechSet {
+  // the structure invariant of the property: reported size == number of elements, all elements of the set's kind
+  pub open spec fn wf(&self) -> bool {
+    self.set.view().finite() && self.num_elements == self.set.view().len()
+    && (self.set.view().len() == 0 ==> self.kind == ValueKind::Empty)
+    && (forall|e: int| #![trigger self.set.view().contains(e)] self.set.view().contains(e) ==> self.kind == ValueKind::K(kind_of(e)))
+  }
+}
+"""
+
+
+def metadata_unit(plan):
+    from vlib import read_repo, extract_fn, split_statements, VerusUnit, AnchorLost, find_code, match_brace
+    import re
+    items, fns = [SET_PRELUDE], {}
+    for op, spec_op in SETOPS:
+        rel = "machines/set/src/operations/%s.rs" % op
+        try:
+            text = read_repo(rel)
+            sig, body = extract_fn(text, "solve")
+            m = find_code(body, r"unsafe\s*\{")
+            if not m:
+                raise AnchorLost("solve() has no unsafe block")
+            inner = body[m.end() - 1:match_brace(body, m.end() - 1)]
+            stm = split_statements(inner)
+            stm = [vlib.strip_lead(x) for x in stm]
+            ptr = [s for s in stm if re.match(r"let (out_ptr|lhs_ptr|rhs_ptr)\s*:", s)]
+            rest = [s for s in stm if not re.match(r"let (out_ptr|lhs_ptr|rhs_ptr)\s*:", s)]
+            if len(ptr) != 3:
+                raise AnchorLost("solve(): expected the three pointer bindings out_ptr / lhs_ptr / rhs_ptr")
+            if any("self." in s for s in rest):
+                raise AnchorLost("solve(): statements after the pointer bindings still mention self")
+        except AnchorLost as e:
+            plan.anchor_errors.append(("C14.metadata.%s" % op, str(e)))
+            continue
+        opexpr = "symdiff(lhs_ptr.set.view(), rhs_ptr.set.view())" if spec_op == "symdiff" else "lhs_ptr.set.view().%s(rhs_ptr.set.view())" % spec_op
+        fn = "solve_%s" % op
+        items.append("""fn %s(out_ptr: &mut MechSet, lhs_ptr: &MechSet, rhs_ptr: &MechSet)
+  requires lhs_ptr.wf(), rhs_ptr.wf(),
+    // operands of one and the same element kind (or empty)
+    forall|a: int, b: int| lhs_ptr.set.view().contains(a) && rhs_ptr.set.view().contains(b) ==> kind_of(a) == kind_of(b),
+  ensures
+    final(out_ptr).set.view() == %s,
+    final(out_ptr).wf(),
+{
+  %s
+}
+""" % (fn, opexpr, "\n  ".join(rest)))
+        fns[fn] = "C14.metadata.%s" % op
+        plan.ob(fns[fn], "verus", "proved", functions=[rel + ": solve"],
+                what="out.set is exactly the %s the dependency returns; reported size == number of elements; kind == kind of the elements (Empty when empty)" % op.replace("_", " "))
+    if not fns:
+        return
+    items.append(vlib.verus_canary("canary_meta", "x: u64", []))
+    plan.verus.append(VerusUnit("c14_metadata", vlib.verus_file(items), fns, ["canary_meta"]))
+    plan.dropped.append("set operations: of each solve() the statements inside `unsafe { }` after the three raw-pointer bindings (out_ptr, lhs_ptr, rhs_ptr) are copied verbatim into a function over `&mut MechSet, &MechSet, &MechSet`; IndexSet, its iterators, Value::kind and ValueKind are an ASSUMED specification (finite set of element identities)")
+
+
 def plan(plan, tier, seed):
+    try:
+        metadata_unit(plan)
+    except Exception as e:
+        plan.anchor_errors.append(("C14.metadata.*", str(e)))
     with open(os.path.join(VERIF, "contracts", "C14", "kani_hash.rs")) as f:
         text = f.read()
     plan.harness_files[os.path.join(GEN, "C14", "kani_hash.rs")] = text
@@ -19,11 +120,17 @@ def plan(plan, tier, seed):
         hmap[h] = plan.ob("C14." + h[len("vkc14_"):].replace("hasheq_", "hash_eq_law."), "kani", "proved",
                           functions=["impl Hash for Value", "derive(PartialEq) for Value", "impl PartialEq for Ref<T>"],
                           what="for all values a, b of the kind: a == b implies the hasher is fed identical bytes")
+    from units import fallback
+    sites = []
+    for op, fn in [("union", "set_union_fxn"), ("intersection", "set_intersection_fxn"), ("difference", "set_difference_fxn"),
+                   ("symmetric_difference", "set_symmetric_difference_fxn")]:
+        sites.append((op, "machines/set/src/operations/%s.rs" % op, r"impl NativeFunctionCompiler for \w+", r"\w+_fxn"))
+    fallback.unit(plan, "C14", sites)
     plan.kani.append(dict(package="mech-core", filters=["vkc14_"], harness=hmap, timeout=3000, replay_entry="vkreplay_c14"))
     plan.functions += ["src/core/src/value.rs: impl Hash for Value vs derived PartialEq (scalar variants)"]
     plan.trusted += ["Kani / CBMC", "indexmap::IndexSet implements set semantics given a lawful Hash/Eq (assumed contract of the dependency)",
                      "std Hash impls of the primitive kinds feed the value's bytes (executed under Kani)"]
     plan.assumptions += ["set algebra (union, intersection, difference, symmetric difference, subset relations, membership) is a single call into indexmap in every solve(); hash containers cannot be executed under CBMC (P12), so the algebra is the dependency's assumed contract",
                          "String, tuple, nested-set, rational elements: not covered by the law harnesses yet"]
-    plan.undecided_clauses += ["C14: set algebra vs mathematical definitions, metadata (num_elements, kind) refresh in every operation, comprehension semantics, order independence"]
+    plan.undecided_clauses += ["C14: that indexmap implements the set algebra (assumed), subset/superset/membership relations, insert/remove, set literals and comprehensions, mixed-kind operands"]
     plan.level = "proof"
